@@ -3,7 +3,8 @@ from simcheck import sim_check
 
 
 def run(tier, seed, replay):
-    kws = [dict(burst=0.08, max_size=1), dict(weights=dict(deliver=5.0, drop=1.2)), dict(max_size=1, weights=dict(drop=1.5)), dict(nclients=2, track=True), dict(weights=dict(sop=8.0, sframe=4.0))]
+    kws = [dict(burst=0.08, max_size=1), dict(weights=dict(deliver=5.0, drop=1.2)), dict(max_size=1, weights=dict(drop=1.5)), dict(nclients=2, track=True), dict(weights=dict(sop=8.0, sframe=4.0)),
+           dict(max_size=1, quiet_tail=1.0, length=25), dict(max_size=1, quiet_tail=1.0, length=40, timeout=40)]
     return sim_check("C02", tier, seed, kws, n_quick=240, n_thorough=24000, oracle_props={"C02"}, known_ids=("D19",),
                      rule_extra=", with the update channel held for several steps while mutate messages and acknowledgements flow, mutate messages dropped and delivered newest-first",
                      extra_assumptions=["checked after every client frame against per-tick server snapshots recorded by the harness; history markers (need_history) are not part of the pool"])
